@@ -197,6 +197,25 @@ func decorate(rng *vh.RNG, d *dg.Design) *dg.Design {
 			}
 		}
 	}
+	// errors sharing a status code get different mappings: a header-mapped attribute or an
+	// empty body on the second one
+	for _, s := range c.Services {
+		for _, m := range s.Methods {
+			if m.HTTP == nil {
+				continue
+			}
+			nf, gone := findResp(m.HTTP.Errors, "not_found"), findResp(m.HTTP.Errors, "gone")
+			if nf == nil || gone == nil || nf.Status != gone.Status {
+				continue
+			}
+			switch rng.Intn(3) {
+			case 1:
+				gone.Headers = []dg.MapEntry{{Attr: "message", Wire: "X-Gone-Message"}}
+			case 2:
+				gone.Body = &dg.BodySpec{Empty: true}
+			}
+		}
+	}
 	c.Features = append(c.Features, "decorated:error_twins")
 	return c
 }
